@@ -8,6 +8,7 @@ import time
 import traceback
 
 ROOT = os.path.dirname(os.path.dirname(os.path.abspath(__file__)))
+OUT = os.environ.get('VERIF_OUT_DIR', ROOT)      # development only: seed regression runs write their evidence / replay files elsewhere
 sys.path.insert(0, ROOT)
 REPO = os.environ.get('PYCLIFFORD_REPO', '/repo')
 if REPO not in sys.path:
@@ -81,7 +82,7 @@ class Run(object):
         self.lemmas_checked = set()
         self.cross = {}
         self.monitor_failures = {}
-        self.replay_dir = os.path.join(ROOT, 'replay')
+        self.replay_dir = os.path.join(OUT, 'replay')
         os.makedirs(self.replay_dir, exist_ok=True)
 
     # ------------------------------------------------------------------ deductive part
@@ -369,8 +370,8 @@ class Run(object):
             'wall_s': round(time.time() - self.t0, 2),
             'violations': len(self.violations),
         }
-        os.makedirs(os.path.join(ROOT, 'evidence'), exist_ok=True)
-        with open(os.path.join(ROOT, 'evidence', '%s.json' % self.pid), 'w') as f:
+        os.makedirs(os.path.join(OUT, 'evidence'), exist_ok=True)
+        with open(os.path.join(OUT, 'evidence', '%s.json' % self.pid), 'w') as f:
             json.dump(ev, f, indent=1, default=str)
         print('%s tier=%s obligations=%d discharged=%d bounded_cases=%d violations=%d known=%d wall=%.1fs' % (
             self.pid, self.tier, n_obl, n_dis, cases, len(self.violations), len(printed), time.time() - self.t0))
